@@ -94,12 +94,36 @@ EXTRA = {
                           'proof': ['reveal_strlit("none"); reveal_strlit("auto"); reveal_strlit("break"); reveal_strlit("continue");']},
     'convert_math': {'ensures': [VERBATIM], 'serves': 'C07 C09'},
     'convert_ident': {'ensures': [LEAF_EXACT], 'serves': 'C10'},
+    'convert_expr_flow': {'requires': ['{n}.kind_s() != SyntaxKind::Markup']},
+    'convert_list_item_like': {'requires': ['matches!({n}.kind_s(), SyntaxKind::ListItem | SyntaxKind::EnumItem | SyntaxKind::TermItem)']},
+    'convert_binary': {'closures': ['@closure 0 ret "(d: ArenaDoc<\'a>)"', '  ensures', '    - doc_closed(d@, self.unit_s())']},
     'convert_text': {'ensures': ['[text_exact C08 C10] r@ == txt({n}.full_text_s())'], 'serves': 'C08 C10'},
     'convert_space': {'ensures': ['[space_or_break C08 C09] r@ == (if has_newline_s({n}.text_s()) { DocV::Hardline } else { sp() })'], 'serves': 'C08 C09'},
     'convert_parbreak': {'ensures': ['[break_count C08] r@ == repeat_doc(DocV::Hardline, count_newlines_s({n}.text_s()))'], 'serves': 'C08',
                          'proof': ['lemma_repeat_doc_hardline(count_newlines_s({n}.text_s()), self.unit_s());']},
     'convert_pattern': {'ensures': [VERBATIM], 'serves': 'C07', 'proof': ['reveal_strlit("_");']},
     'convert_code_block': {'ensures': ['[verbatim_when_body_disabled C07] code_body_disabled(self.store_s(), {n}) ==> r@ == txt({n}.full_text_s())'], 'serves': 'C07'},
+}
+
+
+# flow-like converters: ordinal of the producer closure, name of its node parameter, string literals it emits
+FLOW = {
+    'convert_spread': (0, 'child', ['..']),
+    'convert_unary': (0, 'child', []),
+    'convert_binary': (1, 'child', []),
+    'convert_let_binding': (0, 'child', ['=']),
+    'convert_destruct_assignment': (0, 'child', ['=']),
+    'convert_expr_flow': (0, 'child', []),
+    'convert_set_rule': (0, 'child', []),
+    'convert_show_rule': (0, 'child', [':']),
+    'convert_heading': (0, 'child', []),
+    'convert_list_item_like': (0, 'child', []),
+    'convert_math_attach': (0, 'node', []),
+    'convert_math_frac': (0, 'node', []),
+    'convert_math_root': (0, 'node', []),
+    'convert_import_item_path': (0, 'child', ['.']),
+    'convert_import_item_renamed': (0, 'child', []),
+    'convert_field_access_plain': (0, 'child', ['.']),
 }
 
 
@@ -118,6 +142,8 @@ def main():
             out.append('    - %s.wf()' % p)
         out.append('    - tree_wf(%s)' % n)
         out.append('    - self.inv()')
+        for rq in ex.get('requires', []):
+            out.append('    - ' + rq.replace('{n}', n))
         out.append('  ensures')
         out.append('    - [nest_unit C12] nest_ok(r@, self.unit_s())')
         out.append('    - [comment_safe C04 C06] %s(r@)' % ('t_safe' if fn in MAY_OPEN else 't_closed'))
@@ -128,6 +154,18 @@ def main():
         out.append('    proof { pf_leaf_text(%s); pf_children(%s); pf_line_comments(%s); reveal_with_fuel(tr, 4); reveal_with_fuel(nest_ok, 4); reveal_with_fuel(plain_lines, 4); }' % (n, n, n))
         for pl in ex.get('proof', []):
             out.append('    proof { %s }' % pl.replace('{n}', n))
+        if fn in FLOW:
+            k, cp, lits = FLOW[fn]
+            if lits:
+                out.append('    proof { %s }' % ' '.join('reveal_strlit("%s");' % l for l in lits))
+            out.append('@closure %d ret "(fitem: FlowItem<\'a>)"' % k)
+            out.append('  requires')
+            out.append('    - tree_wf(%s)' % cp)
+            out.append('    - !is_comment_kind(%s.kind_s())' % cp)
+            out.append('  ensures')
+            out.append('    - [producer_docs_closed C04 C06 C12] fitem.0 matches Some(rp) ==> doc_closed(rp.doc@, self.unit_s())')
+            out.append('    proof: pf_leaf_text(%s); pf_children(%s); reveal_with_fuel(tr, 4); reveal_with_fuel(nest_ok, 4); lemma_repeat_doc_hardline(count_newlines_s(%s.text_s()), self.unit_s());' % (cp, cp, cp))
+        out += ex.get('closures', [])
         out.append('@end')
         out.append('')
     here = os.path.dirname(os.path.abspath(__file__))
